@@ -97,6 +97,8 @@ pub struct DScn {
     pub horizon: usize,
     /// initial value of every daemon's transaction sequence counter (None: U16(7))
     pub seq_start: Option<VariableID>,
+    /// allow one `Burst` per schedule
+    pub bursts: bool,
 }
 
 /// the explorer's alphabet
@@ -110,6 +112,9 @@ pub enum Act {
     Advance,
     User(usize),
     Stray(usize, usize),
+    /// the oldest PDU in flight arrives many times at once (more copies than the command queue of
+    /// the transaction it belongs to can hold), with no chance for that transaction to run in between
+    Burst,
 }
 
 struct DaemonH {
@@ -191,6 +196,7 @@ struct Exec {
     next_put: usize,
     user_used: Vec<bool>,
     strays_left: usize,
+    bursts_left: usize,
     ids: Vec<TransactionID>,
     dir: PathBuf,
     t0: tokio::time::Instant,
@@ -257,6 +263,7 @@ impl Exec {
             next_put: 0,
             user_used: vec![false; nu],
             strays_left: if scn.strays { 1 } else { 0 },
+            bursts_left: if scn.bursts { 1 } else { 0 },
             ids: vec![],
             dir,
             t0: tokio::time::Instant::now(),
@@ -612,6 +619,9 @@ impl Exec {
                 v.push(Act::User(i));
             }
         }
+        if self.bursts_left > 0 && !self.inflight.is_empty() {
+            v.push(Act::Burst);
+        }
         if self.strays_left > 0 {
             for dmn in 0..self.scn.daemons.min(2) {
                 for k in 0..self.stray_menu_len {
@@ -701,6 +711,25 @@ impl Exec {
             }
             Act::Drop(k) => {
                 self.inflight.remove(*k);
+            }
+            Act::Burst => {
+                self.bursts_left -= 1;
+                let f = self.inflight.remove(0);
+                // more copies than the command queue holds: 10 slots for a send transaction, 100 for a
+                // receive transaction (lib.rs); injected back to back, drained only afterwards
+                let to_sender = PDU::decode(&mut f.bytes.as_slice()).map(|p| p.header.direction == Direction::ToSender).unwrap_or(false);
+                let copies = if to_sender { 12 } else { 103 };
+                for _ in 0..copies {
+                    if let Ok(pdu) = PDU::decode(&mut f.bytes.as_slice()) {
+                        let id = TransactionID(pdu.header.source_entity_id, pdu.header.transaction_sequence_number);
+                        self.pending_cmd.entry((f.to, id)).or_default().push_back(pdu.clone());
+                        // the transport's own queue holds 100: refill it as it drains, without sleeping
+                        while self.d[f.to].in_tx.try_send(pdu.clone()).is_err() {
+                            tokio::task::yield_now().await;
+                        }
+                    }
+                }
+                self.finished_pdus.push((f.to, f.bytes.clone()));
             }
             Act::Dup(k) => {
                 let (to, bytes) = (self.inflight[*k].to, self.inflight[*k].bytes.clone());
